@@ -29,7 +29,8 @@ MaxEpoch == 4
 Full(s) == [set |-> s, sigs |-> [i \in 1..Len(Sets[s].keys) |-> "Valid"]]
 Tagged(s, t) == [set |-> s, sigs |-> [i \in 1..Len(Sets[s].keys) |-> t]]
 Latest(s) == s.hashByEpoch[s.epoch]
-Ticks == {x \in {1, MinDelay - 1, MinDelay, MinDelay + 1} : x > 0}
+\* (a delay at the top of the range stands for u64::MAX: no boundary ticks, time just passes)
+Ticks == IF MinDelay >= 2147483646 THEN {1} ELSE {x \in {1, MinDelay - 1, MinDelay, MinDelay + 1} : x > 0}
 
 Rot(new, proof, bypass, auth) ==
     [name |-> "RotateSigners", new |-> new, proof |-> proof, bypass |-> bypass, auth |-> auth]
